@@ -19,6 +19,8 @@ for d in sorted(os.listdir("/verif/seeded")):
     else:
         res = "missed"
     rows.append("| %s | %s | %s | %s |" % (d, m["breaks_property"], m["needs_to_manifest"][:110], res))
+det = sum("**detected**" in r for r in rows); und = sum("undecided (exit 2)" in r for r in rows); mis = sum(r.rstrip().endswith("| missed |") for r in rows)
+print("Totals over %d seeded changes: %d detected, %d undecided, %d missed, %d no longer a violation on the repaired tree.\n" % (len(rows), det, und, mis, len(rows) - det - und - mis))
 print("| seed | property | needs | outcome of `./check <property> quick` |")
 print("|------|----------|-------|------------------------------------------|")
 print("\n".join(rows))
